@@ -4,9 +4,10 @@
     the set (non-)membership proofs for ALL witnesses, randomness and challenges; the exact
     arithmetic of the derived statements; the verifier as an explicit conjunction of equations.
     Soundness against arbitrary provers is computational (discrete log) and is NOT claimed. *)
-From Coq Require Import ZArith List Bool.
+From Coq Require Import ZArith List Bool InitialRing.
 From CB Require Import Crypto.RangeStmt Crypto.RangeStmtProofs.
 From CB Require Import Crypto.BpAlg Crypto.Ipa Crypto.RangeProof Crypto.SetProof Crypto.BpTheorems.
+From CB Require Import Crypto.Transcript Crypto.BpTranscript Crypto.BpTranscriptProofs.
 Import ListNotations.
 Local Open Scope Z_scope.
 
@@ -142,6 +143,33 @@ Theorem range_complete : forall Ops, bp_laws Ops -> forall n vs rs Gs Hs B Bt sL
 Proof. exact range_complete_p. Qed.
 Print Assumptions range_complete.
 
+(** the same against commitments to the canonical images of the values ([gen_phiZ] = the unique ring
+    homomorphism Z -> F, i.e. [scalar_from_u64]), when every value is in [0, 2^n) *)
+Theorem range_complete_in_range : forall Ops, bp_laws Ops -> forall n vs rs Gs Hs B Bt sL sR at_ st t1t t2t y yi z x w us,
+  Forall (fun v => 0 <= v < 2 ^ Z.of_nat n) vs ->
+  length rs = length vs ->
+  length Gs = Nat.pow 2 (length us) -> length Gs = (n * length vs)%nat -> length Hs = length Gs ->
+  length sL = length Gs -> length sR = length Gs ->
+  o_fmul Ops y yi = o_f1 Ops -> inv_ok Ops us ->
+  range_verdict Ops n
+    (vzip (commit Ops B Bt) (map (gen_phiZ (o_f0 Ops) (o_f1 Ops) (o_fadd Ops) (o_fmul Ops) (o_fopp Ops)) vs) rs)
+    Gs Hs B Bt
+    (range_prove Ops n vs rs Gs Hs B Bt sL sR at_ st t1t t2t y yi z x w us) y yi z x w us = VOk.
+Proof. exact range_complete_in_range_p. Qed.
+Print Assumptions range_complete_in_range.
+
+(** the value committed for arbitrary v is the image of v mod 2^n: outside the range it is not v *)
+Theorem committed_value_is_low_bits : forall Ops, bp_laws Ops -> forall n v,
+  fval Ops n v = gen_phiZ (o_f0 Ops) (o_f1 Ops) (o_fadd Ops) (o_fmul Ops) (o_fopp Ops) (v mod 2 ^ Z.of_nat n).
+Proof. exact fval_canonical_p. Qed.
+Print Assumptions committed_value_is_low_bits.
+
+(** [verify_scalars] as coded (floor(log2 i), u_sq table, s_i = s_(i-2^lg) u_sq[k-1-lg]) equals [svec] *)
+Theorem verify_scalars_iterative_is_svec : forall Ops, bp_laws Ops -> forall us,
+  inv_ok Ops us -> svec_iter Ops us = svec Ops us.
+Proof. exact svec_iter_eq_svec_p. Qed.
+Print Assumptions verify_scalars_iterative_is_svec.
+
 (** set membership: a proof exists iff v is in the set, and it verifies (sets of every size >= 1 after
     padding; the padded length must be the number of generators = 2^k) *)
 Theorem set_member_complete : forall Ops, bp_laws Ops -> forall set v vr Gs Hs B Bt sL sR at_ st t1t t2t y yi z x w us,
@@ -174,6 +202,72 @@ Theorem set_nonmember_no_honest_proof_inside : forall Ops, bp_laws Ops -> forall
   In v set -> nonmem_prove Ops set v vr invs Gs Hs B Bt sL sR at_ st t1t t2t y yi z x w us = None.
 Proof. exact nonmem_no_proof_p. Qed.
 Print Assumptions set_nonmember_no_honest_proof_inside.
+
+(** * Fiat-Shamir: every challenge is the hash of a frame that injectively contains every earlier
+    prover message (both transcript implementations; [same_shape] = same labels and payload lengths,
+    which holds for any two proofs checked in one context because points and scalars have fixed-width
+    encodings).  Accepting an altered message with unchanged challenges therefore exhibits an explicit
+    SHA3 collision. *)
+
+(** the string hashed for u_j determines L_0..L_j and R_0..R_j *)
+Theorem ipa_challenges_bind_L_and_R : forall k st lrs lrs' j,
+  same_shape (ipa_items lrs j) (ipa_items lrs' j) ->
+  ipa_state_at k st lrs j = ipa_state_at k st lrs' j ->
+  firstn (S j) lrs = firstn (S j) lrs'.
+Proof. exact ipa_challenges_bind_L_and_R_l. Qed.
+Print Assumptions ipa_challenges_bind_L_and_R.
+
+Theorem ipa_alter_gives_collision : forall (H : bytes -> bytes) k st lrs lrs' j,
+  same_shape (ipa_items lrs j) (ipa_items lrs' j) ->
+  firstn (S j) lrs <> firstn (S j) lrs' ->
+  H (ipa_state_at k st lrs j) = H (ipa_state_at k st lrs' j) ->
+  exists s s', s <> s' /\ H s = H s'.
+Proof. exact ipa_alter_gives_collision_l. Qed.
+Print Assumptions ipa_alter_gives_collision.
+
+(** range / set proofs: the string hashed for u_j determines the public inputs (generators, keys, bit
+    width, commitments / set), A, S, T_1, T_2, t_x, tx~, e~ and all (L,R) pairs up to round j *)
+Theorem range_challenges_bind_all_commitments : forall k st pre pre' p p' j,
+  List.length pre = List.length pre' ->
+  same_shape (items_at pre p (SU j)) (items_at pre' p' (SU j)) ->
+  state_at k st pre p (SU j) = state_at k st pre' p' (SU j) ->
+  pre = pre' /\ mA p = mA p' /\ mS p = mS p' /\ mT1 p = mT1 p' /\ mT2 p = mT2 p'
+  /\ mtx p = mtx p' /\ mtxt p = mtxt p' /\ met p = met p'
+  /\ firstn (S j) (mlr p) = firstn (S j) (mlr p').
+Proof. exact range_challenges_bind_all_commitments_l. Qed.
+Print Assumptions range_challenges_bind_all_commitments.
+
+(** y (and z) bind the public inputs, A, S; x additionally T_1, T_2; w additionally t_x, tx~, e~ *)
+Theorem early_challenges_bind : forall k st pre pre' p p',
+  List.length pre = List.length pre' ->
+  (same_shape (items_at pre p SY) (items_at pre' p' SY) ->
+   state_at k st pre p SY = state_at k st pre' p' SY ->
+   pre = pre' /\ mA p = mA p' /\ mS p = mS p')
+  /\ (same_shape (items_at pre p SX) (items_at pre' p' SX) ->
+      state_at k st pre p SX = state_at k st pre' p' SX ->
+      pre = pre' /\ mA p = mA p' /\ mS p = mS p' /\ mT1 p = mT1 p' /\ mT2 p = mT2 p')
+  /\ (same_shape (items_at pre p SW) (items_at pre' p' SW) ->
+      state_at k st pre p SW = state_at k st pre' p' SW ->
+      pre = pre' /\ mA p = mA p' /\ mS p = mS p' /\ mT1 p = mT1 p' /\ mT2 p = mT2 p'
+      /\ mtx p = mtx p' /\ mtxt p = mtxt p' /\ met p = met p').
+Proof. exact early_challenges_bind_l. Qed.
+Print Assumptions early_challenges_bind.
+
+Theorem alter_gives_collision : forall (H : bytes -> bytes) k st pre pre' p p' s,
+  same_shape (items_at pre p s) (items_at pre' p' s) ->
+  items_at pre p s <> items_at pre' p' s ->
+  H (state_at k st pre p s) = H (state_at k st pre' p' s) ->
+  exists s1 s2, s1 <> s2 /\ H s1 = H s2.
+Proof. exact alter_gives_collision_l. Qed.
+Print Assumptions alter_gives_collision.
+
+(** non-vacuity: two same-shape inner-product transcripts that differ only in R_0 are hashed differently *)
+Example transcript_binding_nonvacuous :
+  same_shape (ipa_items [([1%N], [2%N])] 0) (ipa_items [([1%N], [3%N])] 0)
+  /\ ipa_state_at Legacy [] [([1%N], [2%N])] 0 <> ipa_state_at Legacy [] [([1%N], [3%N])] 0
+  /\ ipa_state_at V1 [] [([1%N], [2%N])] 0 <> ipa_state_at V1 [] [([1%N], [3%N])] 0.
+Proof. split; [split; reflexivity|]. split; vm_compute; discriminate. Qed.
+Print Assumptions transcript_binding_nonvacuous.
 
 (** non-vacuity of [bp_laws] and of the hypotheses of the completeness theorems: the integers as a
     module over themselves, challenges +-1 (the only units), n = 2, m = 2, values 3 and 1; the
